@@ -840,16 +840,30 @@ class Engine:
     def ev_IfExp(self, node, st, fr):
         c = self.truthy(self.ev(node.test, st, fr), st, fr)
         base = len(st.pc)
+        h0 = dict(st.heap)
         st.pc.append(c)
         a = self.ev(node.body, st, fr)
         ta = st.pc[base + 1:]
         del st.pc[base:]
+        ha = dict(st.heap)
+        st.heap = dict(h0)
         st.pc.append(z3.Not(c))
         b = self.ev(node.orelse, st, fr)
         tb = st.pc[base + 1:]
         del st.pc[base:]
+        hb = dict(st.heap)
         st.pc.extend(z3.Implies(c, x) for x in ta)
         st.pc.extend(z3.Implies(z3.Not(c), x) for x in tb)
+        # heap effects of a branch (e.g. the list built by `[x] if x else None`) happen only when that branch is taken
+        if any(ha.get(k) is not hb.get(k) for k in set(ha) | set(hb)):
+            tmp = State()
+            tmp.heap = dict(h0)
+            merged = dict(h0)
+            for k in set(ha) | set(hb):
+                xa = ha[k] if k in ha else self.h(tmp, k)
+                xb = hb[k] if k in hb else self.h(tmp, k)
+                merged[k] = xa if (xa is xb or xa.eq(xb)) else z3.If(c, xa, xb)
+            st.heap = merged
         return self.ite(c, a, b)
 
     def ev_BinOp(self, node, st, fr):
